@@ -57,17 +57,15 @@ pub mod w10 {
    use crate::common::*;
    ascent_par! {
       pub struct Prog;
-      relation r0(i64, i64);
-      relation r1(i64, i64, i64);
-      lattice r2(i64, Option<i64>);
-      lattice r3(i64);
-      r2(v0, Some((*v0))) <-- r1(v0, 2, v0);
-      r2(v0, v1) <-- r2(v0, v1), r0(v2, v3);
-      r3((*v0)) <-- r0(0, v0);
-      r3(std::cmp::min(((*v1) + 0), 6)) <-- r3(v0), r3(v1);
-      r0(v0, v0) <-- r0(v0, v0), r2(v0, v1) if ((*v0) < 3);
-      r2(1, Some(0)) <-- r3(v0), r3(v1);
-      r3((*v0)) <-- r2(v0, v1);
+      relation r0(i64);
+      relation r1(i64, i64);
+      relation r2(i64, i64, i64);
+      r1(3, 2) <-- r0(0);
+      r1((v1 + 1), v0) <-- r1(3, v0) if ((*v0) < 6) let v1 = ((*v0) + 0), r1(v1, (v1 + 1)) if ((*v0) <= 3), if (v1 < 6);
+      r1(v0, v1) <-- let v9 = 0, r1(v0, v1), r1(v1, v9);
+      r1(v0, v0) <-- let v0 = 3, r0(v0), if (v0 == 3), if (v0 <= 6);
+      r1((v0 + 1), v2) <-- for v0 in 1..3, r2(v0, v1, v2), if (v0 < 6);
+      r2(v0, v0, v2) <-- r2(v0, v1, v2), r1(v0, v3);
    }
    pub struct Inst { p: Prog, pool: Option<ascent::rayon::ThreadPool> }
    pub fn make(pool: Option<usize>) -> Box<dyn Driver> {
@@ -78,10 +76,9 @@ pub mod w10 {
    impl Driver for Inst {
       fn load(&mut self, rel: usize, rows: &[Sexp], append: bool) -> Option<()> {
          match rel {
-         0 => { let v: Vec<(i64,i64,)> = parse_rows(rows)?; if !append { self.p.r0 = Default::default(); } for x in v { self.p.r0.push(x); } },
-         1 => { let v: Vec<(i64,i64,i64,)> = parse_rows(rows)?; if !append { self.p.r1 = Default::default(); } for x in v { self.p.r1.push(x); } },
-         2 => { let v: Vec<(i64,Option<i64>,)> = parse_rows(rows)?; if !append { self.p.r2 = Default::default(); } for x in v { self.p.r2.push(std::sync::RwLock::new(x)); } },
-         3 => { let v: Vec<(i64,)> = parse_rows(rows)?; if !append { self.p.r3 = Default::default(); } for x in v { self.p.r3.push(std::sync::RwLock::new(x)); } },
+         0 => { let v: Vec<(i64,)> = parse_rows(rows)?; if !append { self.p.r0 = Default::default(); } for x in v { self.p.r0.push(x); } },
+         1 => { let v: Vec<(i64,i64,)> = parse_rows(rows)?; if !append { self.p.r1 = Default::default(); } for x in v { self.p.r1.push(x); } },
+         2 => { let v: Vec<(i64,i64,i64,)> = parse_rows(rows)?; if !append { self.p.r2 = Default::default(); } for x in v { self.p.r2.push(x); } },
             _ => return None,
          }
          Some(())
@@ -89,7 +86,7 @@ pub mod w10 {
       fn run(&mut self) { match &self.pool { Some(pl) => { let p = &mut self.p; pl.install(|| p.run()) }, None => self.p.run() } }
       fn run_here(&mut self) { self.p.run() }
       fn run_timeout(&mut self, k: usize) -> Option<bool> { let _ = k; None }
-      fn dump(&self) -> String { vec![dump_rel(0, self.p.r0.iter().map(|x| x.render()).collect()), dump_rel(1, self.p.r1.iter().map(|x| x.render()).collect()), dump_rel(2, self.p.r2.iter().map(|x| x.read().unwrap().render()).collect()), dump_rel(3, self.p.r3.iter().map(|x| x.read().unwrap().render()).collect())].join(" | ") }
+      fn dump(&self) -> String { vec![dump_rel(0, self.p.r0.iter().map(|x| x.render()).collect()), dump_rel(1, self.p.r1.iter().map(|x| x.render()).collect()), dump_rel(2, self.p.r2.iter().map(|x| x.render()).collect())].join(" | ") }
       fn iters(&self) -> String { format!("iters {}", self.p.scc_iters.iter().map(|x| x.to_string()).collect::<Vec<_>>().join(" ")) }
    }
 }
@@ -103,21 +100,14 @@ pub mod w18 {
    ascent_par! {
       pub struct Prog;
       relation r0(i64, i64);
-      relation r1(i64, i64, i64);
-      lattice r2(i64, i64, Dual<i64>);
-      lattice r3(i64, Set<i64>);
-      r2(v0, v0, Dual((*v0))) <-- r0(v0, v0);
-      r2(v2, v3, Dual(((v1.0) + 3))) <-- r2(v0, 3, v1), r0(v2, v3);
-      r2(v0, v0, v2) <-- r2(v0, v0, v1), r2(v0, v0, v2);
-      r3(v0, Set::singleton((*v1))) <-- r0(v0, v1);
-      r3(v1, v2) <-- r3(v0, v2), r0(v0, v1);
-      r3(v0, Set::singleton((*v0))) <-- r0(v0, v0);
-      r3(v1, v0) <-- r3(0, v0), r0(v1, v1) if ((*v1) < 4);
-      r3(((*v2) + 1), Set::singleton(3)) <-- r3(v0, v1), r3(v2, v3), if ((*v2) < 6);
-      r1(0, v0, v0) <-- r2(v0, 3, v1), r3(v0, v2);
-      r2(v0, v1, Dual((*v1))) <-- r1(v0, v0, v1);
-      r2(v0, v1, Dual((*v1))) <-- r2(v0, v1, v2);
-      r3(v0, Set::singleton((*v0))) <-- r2(v0, v1, v2) if ((*v0) < 5);
+      relation r1(i64, i64);
+      relation r2(i64, i64);
+      relation r3(i64, i64, i64);
+      r3(((*v0) + 1), v0, v0) <-- r1(0, v0), if ((*v0) < 6);
+      r3(((*v1) + 1), ((*v2) + 1), v0) <-- if let Some(v0) = Some(1), r3(v1, v2, v3), r1(v1, v4), if ((*v1) < 6), if ((*v2) < 6), if (v0 <= 6);
+      r2(v0, v8) <-- if let Some(v9) = Some(2), r0(v0, v1), r1(v1, v9) let v8 = ((*v0) + 1);
+      r2(v0, v1) <-- r1(v0, v1), r0(v1, v1);
+      r3(v0, ((*v1) + 1), v1) <-- r1(v0, v1), r0(v1, v2), if ((*v1) < 6);
    }
    pub struct Inst { p: Prog, pool: Option<ascent::rayon::ThreadPool> }
    pub fn make(pool: Option<usize>) -> Box<dyn Driver> {
@@ -129,9 +119,290 @@ pub mod w18 {
       fn load(&mut self, rel: usize, rows: &[Sexp], append: bool) -> Option<()> {
          match rel {
          0 => { let v: Vec<(i64,i64,)> = parse_rows(rows)?; if !append { self.p.r0 = Default::default(); } for x in v { self.p.r0.push(x); } },
-         1 => { let v: Vec<(i64,i64,i64,)> = parse_rows(rows)?; if !append { self.p.r1 = Default::default(); } for x in v { self.p.r1.push(x); } },
-         2 => { let v: Vec<(i64,i64,Dual<i64>,)> = parse_rows(rows)?; if !append { self.p.r2 = Default::default(); } for x in v { self.p.r2.push(std::sync::RwLock::new(x)); } },
+         1 => { let v: Vec<(i64,i64,)> = parse_rows(rows)?; if !append { self.p.r1 = Default::default(); } for x in v { self.p.r1.push(x); } },
+         2 => { let v: Vec<(i64,i64,)> = parse_rows(rows)?; if !append { self.p.r2 = Default::default(); } for x in v { self.p.r2.push(x); } },
+         3 => { let v: Vec<(i64,i64,i64,)> = parse_rows(rows)?; if !append { self.p.r3 = Default::default(); } for x in v { self.p.r3.push(x); } },
+            _ => return None,
+         }
+         Some(())
+      }
+      fn run(&mut self) { match &self.pool { Some(pl) => { let p = &mut self.p; pl.install(|| p.run()) }, None => self.p.run() } }
+      fn run_here(&mut self) { self.p.run() }
+      fn run_timeout(&mut self, k: usize) -> Option<bool> { let _ = k; None }
+      fn dump(&self) -> String { vec![dump_rel(0, self.p.r0.iter().map(|x| x.render()).collect()), dump_rel(1, self.p.r1.iter().map(|x| x.render()).collect()), dump_rel(2, self.p.r2.iter().map(|x| x.render()).collect()), dump_rel(3, self.p.r3.iter().map(|x| x.render()).collect())].join(" | ") }
+      fn iters(&self) -> String { format!("iters {}", self.p.scc_iters.iter().map(|x| x.to_string()).collect::<Vec<_>>().join(" ")) }
+   }
+}
+
+#[allow(unused, non_snake_case, clippy::all)]
+pub mod w26 {
+   use ascent::*;
+   use ascent::aggregators::*;
+   use ascent::lattice::{Dual, set::Set};
+   use crate::common::*;
+   ascent_par! {
+      pub struct Prog;
+      relation r0(i64, i64, i64);
+      relation r1(i64, i64);
+      relation r2(i64, i64, i64);
+      relation r3(i64, i64);
+      relation r4(i64, i64, i64);
+      r4(v1, v1, v0) <-- for v0 in [0, 0, 3], r0(v0, v0, v1);
+      r4(((*v1) + 1), v1, 0) <-- r4(2, v0, v1) if ((*v1) < 1), r0(v2, v3, v4), let v5 = (*v1), if ((*v1) < 6);
+      r4(v0, v1, v9) <-- let v9 = 0, r3(v0, v1), r3(v1, v9);
+      r1(v2, ((*v2) + 1)) <-- r2(v0, v1, v2) if ((*v0) != 6), if ((*v2) < 6);
+      r4(v1, v0, v1) <-- r0(3, v0, v1);
+      r3(1, v0) <-- if let Some(v0) = Some(2), if (v0 <= 6);
+   }
+   pub struct Inst { p: Prog, pool: Option<ascent::rayon::ThreadPool> }
+   pub fn make(pool: Option<usize>) -> Box<dyn Driver> {
+      let pool = pool.map(|n| ascent::rayon::ThreadPoolBuilder::new().num_threads(n).build().unwrap());
+      let p = match &pool { Some(pl) => pl.install(|| Default::default()), None => Default::default() };
+      Box::new(Inst { p, pool })
+   }
+   impl Driver for Inst {
+      fn load(&mut self, rel: usize, rows: &[Sexp], append: bool) -> Option<()> {
+         match rel {
+         0 => { let v: Vec<(i64,i64,i64,)> = parse_rows(rows)?; if !append { self.p.r0 = Default::default(); } for x in v { self.p.r0.push(x); } },
+         1 => { let v: Vec<(i64,i64,)> = parse_rows(rows)?; if !append { self.p.r1 = Default::default(); } for x in v { self.p.r1.push(x); } },
+         2 => { let v: Vec<(i64,i64,i64,)> = parse_rows(rows)?; if !append { self.p.r2 = Default::default(); } for x in v { self.p.r2.push(x); } },
+         3 => { let v: Vec<(i64,i64,)> = parse_rows(rows)?; if !append { self.p.r3 = Default::default(); } for x in v { self.p.r3.push(x); } },
+         4 => { let v: Vec<(i64,i64,i64,)> = parse_rows(rows)?; if !append { self.p.r4 = Default::default(); } for x in v { self.p.r4.push(x); } },
+            _ => return None,
+         }
+         Some(())
+      }
+      fn run(&mut self) { match &self.pool { Some(pl) => { let p = &mut self.p; pl.install(|| p.run()) }, None => self.p.run() } }
+      fn run_here(&mut self) { self.p.run() }
+      fn run_timeout(&mut self, k: usize) -> Option<bool> { let _ = k; None }
+      fn dump(&self) -> String { vec![dump_rel(0, self.p.r0.iter().map(|x| x.render()).collect()), dump_rel(1, self.p.r1.iter().map(|x| x.render()).collect()), dump_rel(2, self.p.r2.iter().map(|x| x.render()).collect()), dump_rel(3, self.p.r3.iter().map(|x| x.render()).collect()), dump_rel(4, self.p.r4.iter().map(|x| x.render()).collect())].join(" | ") }
+      fn iters(&self) -> String { format!("iters {}", self.p.scc_iters.iter().map(|x| x.to_string()).collect::<Vec<_>>().join(" ")) }
+   }
+}
+
+#[allow(unused, non_snake_case, clippy::all)]
+pub mod w34 {
+   use ascent::*;
+   use ascent::aggregators::*;
+   use ascent::lattice::{Dual, set::Set};
+   use crate::common::*;
+   ascent_par! {
+      pub struct Prog;
+      relation r0(i64, i64);
+      relation r1(i64, i64);
+      relation r2(i64, i64);
+      relation r3(i64, i64);
+      relation r4(i64, i64);
+      relation r5(i64, i64);
+      r3(v2, (v0 + 1)) <-- for v0 in 2..3, r1(v1, v0), for v2 in 2..1, if (v0 < 6);
+      r3(v1, v1) <-- r3(v0, v1), r3(v1, v0) if ((*v0) < 4);
+      r2(v0, v1) <-- r3(v0, v1), r3(((*v0) + 1), v2);
+      r5(((*v1) + 1), 2) <-- if let Some(v0) = Some(4), r2(v0, v1) if (v0 <= 6), if (v0 <= 1), if ((*v1) < 6);
+   }
+   pub struct Inst { p: Prog, pool: Option<ascent::rayon::ThreadPool> }
+   pub fn make(pool: Option<usize>) -> Box<dyn Driver> {
+      let pool = pool.map(|n| ascent::rayon::ThreadPoolBuilder::new().num_threads(n).build().unwrap());
+      let p = match &pool { Some(pl) => pl.install(|| Default::default()), None => Default::default() };
+      Box::new(Inst { p, pool })
+   }
+   impl Driver for Inst {
+      fn load(&mut self, rel: usize, rows: &[Sexp], append: bool) -> Option<()> {
+         match rel {
+         0 => { let v: Vec<(i64,i64,)> = parse_rows(rows)?; if !append { self.p.r0 = Default::default(); } for x in v { self.p.r0.push(x); } },
+         1 => { let v: Vec<(i64,i64,)> = parse_rows(rows)?; if !append { self.p.r1 = Default::default(); } for x in v { self.p.r1.push(x); } },
+         2 => { let v: Vec<(i64,i64,)> = parse_rows(rows)?; if !append { self.p.r2 = Default::default(); } for x in v { self.p.r2.push(x); } },
+         3 => { let v: Vec<(i64,i64,)> = parse_rows(rows)?; if !append { self.p.r3 = Default::default(); } for x in v { self.p.r3.push(x); } },
+         4 => { let v: Vec<(i64,i64,)> = parse_rows(rows)?; if !append { self.p.r4 = Default::default(); } for x in v { self.p.r4.push(x); } },
+         5 => { let v: Vec<(i64,i64,)> = parse_rows(rows)?; if !append { self.p.r5 = Default::default(); } for x in v { self.p.r5.push(x); } },
+            _ => return None,
+         }
+         Some(())
+      }
+      fn run(&mut self) { match &self.pool { Some(pl) => { let p = &mut self.p; pl.install(|| p.run()) }, None => self.p.run() } }
+      fn run_here(&mut self) { self.p.run() }
+      fn run_timeout(&mut self, k: usize) -> Option<bool> { let _ = k; None }
+      fn dump(&self) -> String { vec![dump_rel(0, self.p.r0.iter().map(|x| x.render()).collect()), dump_rel(1, self.p.r1.iter().map(|x| x.render()).collect()), dump_rel(2, self.p.r2.iter().map(|x| x.render()).collect()), dump_rel(3, self.p.r3.iter().map(|x| x.render()).collect()), dump_rel(4, self.p.r4.iter().map(|x| x.render()).collect()), dump_rel(5, self.p.r5.iter().map(|x| x.render()).collect())].join(" | ") }
+      fn iters(&self) -> String { format!("iters {}", self.p.scc_iters.iter().map(|x| x.to_string()).collect::<Vec<_>>().join(" ")) }
+   }
+}
+
+#[allow(unused, non_snake_case, clippy::all)]
+pub mod w42 {
+   use ascent::*;
+   use ascent::aggregators::*;
+   use ascent::lattice::{Dual, set::Set};
+   use crate::common::*;
+   ascent_par! {
+      pub struct Prog;
+      relation r0(i64);
+      relation r1(i64, i64);
+      relation r2(i64);
+      relation r3(i64, i64);
+      lattice r4(i64, Set<i64>);
+      lattice r5(i64, i64, Set<i64>);
+      r4(v0, Set::singleton((*v1))) <-- r1(v0, v1);
+      r4(v1, v2) <-- r4(v0, v2), r1(v0, v1);
+      r4(1, Set::singleton((*v0))) <-- r3(v0, v1);
+      r4(v2, v1) <-- r4(v0, v1) if ((*v0) < 3), r3(v0, v2) if ((*v2) < 5);
+      r5(v1, v0, Set::singleton((*v1))) <-- r1(v0, v1) if ((*v0) < 4);
+      r5(v0, v2, v1) <-- r5(v0, 1, v1), r1(v0, v2);
+      r5(v0, v0, v2) <-- r5(0, v0, v1) if ((*v0) < 4), r5(v0, 2, v2);
+      r3(v0, v0) <-- r2(v0);
+   }
+   pub struct Inst { p: Prog, pool: Option<ascent::rayon::ThreadPool> }
+   pub fn make(pool: Option<usize>) -> Box<dyn Driver> {
+      let pool = pool.map(|n| ascent::rayon::ThreadPoolBuilder::new().num_threads(n).build().unwrap());
+      let p = match &pool { Some(pl) => pl.install(|| Default::default()), None => Default::default() };
+      Box::new(Inst { p, pool })
+   }
+   impl Driver for Inst {
+      fn load(&mut self, rel: usize, rows: &[Sexp], append: bool) -> Option<()> {
+         match rel {
+         0 => { let v: Vec<(i64,)> = parse_rows(rows)?; if !append { self.p.r0 = Default::default(); } for x in v { self.p.r0.push(x); } },
+         1 => { let v: Vec<(i64,i64,)> = parse_rows(rows)?; if !append { self.p.r1 = Default::default(); } for x in v { self.p.r1.push(x); } },
+         2 => { let v: Vec<(i64,)> = parse_rows(rows)?; if !append { self.p.r2 = Default::default(); } for x in v { self.p.r2.push(x); } },
+         3 => { let v: Vec<(i64,i64,)> = parse_rows(rows)?; if !append { self.p.r3 = Default::default(); } for x in v { self.p.r3.push(x); } },
+         4 => { let v: Vec<(i64,Set<i64>,)> = parse_rows(rows)?; if !append { self.p.r4 = Default::default(); } for x in v { self.p.r4.push(std::sync::RwLock::new(x)); } },
+         5 => { let v: Vec<(i64,i64,Set<i64>,)> = parse_rows(rows)?; if !append { self.p.r5 = Default::default(); } for x in v { self.p.r5.push(std::sync::RwLock::new(x)); } },
+            _ => return None,
+         }
+         Some(())
+      }
+      fn run(&mut self) { match &self.pool { Some(pl) => { let p = &mut self.p; pl.install(|| p.run()) }, None => self.p.run() } }
+      fn run_here(&mut self) { self.p.run() }
+      fn run_timeout(&mut self, k: usize) -> Option<bool> { let _ = k; None }
+      fn dump(&self) -> String { vec![dump_rel(0, self.p.r0.iter().map(|x| x.render()).collect()), dump_rel(1, self.p.r1.iter().map(|x| x.render()).collect()), dump_rel(2, self.p.r2.iter().map(|x| x.render()).collect()), dump_rel(3, self.p.r3.iter().map(|x| x.render()).collect()), dump_rel(4, self.p.r4.iter().map(|x| x.read().unwrap().render()).collect()), dump_rel(5, self.p.r5.iter().map(|x| x.read().unwrap().render()).collect())].join(" | ") }
+      fn iters(&self) -> String { format!("iters {}", self.p.scc_iters.iter().map(|x| x.to_string()).collect::<Vec<_>>().join(" ")) }
+   }
+}
+
+#[allow(unused, non_snake_case, clippy::all)]
+pub mod w50 {
+   use ascent::*;
+   use ascent::aggregators::*;
+   use ascent::lattice::{Dual, set::Set};
+   use crate::common::*;
+   ascent_par! {
+      pub struct Prog;
+      relation r0(i64, i64, i64);
+      relation r1(i64);
+      relation r2(i64);
+      lattice r3(i64, Set<i64>);
+      lattice r4(i64);
+      r3(v0, Set::singleton((*v1))) <-- r0(v0, v1, 1);
+      r4(2) <-- r1(v0);
+      r4(v0) <-- r4(v0), r1(v1);
+      r1(v0) <-- r3(v0, v1), r1(v0);
+   }
+   pub struct Inst { p: Prog, pool: Option<ascent::rayon::ThreadPool> }
+   pub fn make(pool: Option<usize>) -> Box<dyn Driver> {
+      let pool = pool.map(|n| ascent::rayon::ThreadPoolBuilder::new().num_threads(n).build().unwrap());
+      let p = match &pool { Some(pl) => pl.install(|| Default::default()), None => Default::default() };
+      Box::new(Inst { p, pool })
+   }
+   impl Driver for Inst {
+      fn load(&mut self, rel: usize, rows: &[Sexp], append: bool) -> Option<()> {
+         match rel {
+         0 => { let v: Vec<(i64,i64,i64,)> = parse_rows(rows)?; if !append { self.p.r0 = Default::default(); } for x in v { self.p.r0.push(x); } },
+         1 => { let v: Vec<(i64,)> = parse_rows(rows)?; if !append { self.p.r1 = Default::default(); } for x in v { self.p.r1.push(x); } },
+         2 => { let v: Vec<(i64,)> = parse_rows(rows)?; if !append { self.p.r2 = Default::default(); } for x in v { self.p.r2.push(x); } },
          3 => { let v: Vec<(i64,Set<i64>,)> = parse_rows(rows)?; if !append { self.p.r3 = Default::default(); } for x in v { self.p.r3.push(std::sync::RwLock::new(x)); } },
+         4 => { let v: Vec<(i64,)> = parse_rows(rows)?; if !append { self.p.r4 = Default::default(); } for x in v { self.p.r4.push(std::sync::RwLock::new(x)); } },
+            _ => return None,
+         }
+         Some(())
+      }
+      fn run(&mut self) { match &self.pool { Some(pl) => { let p = &mut self.p; pl.install(|| p.run()) }, None => self.p.run() } }
+      fn run_here(&mut self) { self.p.run() }
+      fn run_timeout(&mut self, k: usize) -> Option<bool> { let _ = k; None }
+      fn dump(&self) -> String { vec![dump_rel(0, self.p.r0.iter().map(|x| x.render()).collect()), dump_rel(1, self.p.r1.iter().map(|x| x.render()).collect()), dump_rel(2, self.p.r2.iter().map(|x| x.render()).collect()), dump_rel(3, self.p.r3.iter().map(|x| x.read().unwrap().render()).collect()), dump_rel(4, self.p.r4.iter().map(|x| x.read().unwrap().render()).collect())].join(" | ") }
+      fn iters(&self) -> String { format!("iters {}", self.p.scc_iters.iter().map(|x| x.to_string()).collect::<Vec<_>>().join(" ")) }
+   }
+}
+
+#[allow(unused, non_snake_case, clippy::all)]
+pub mod w58 {
+   use ascent::*;
+   use ascent::aggregators::*;
+   use ascent::lattice::{Dual, set::Set};
+   use crate::common::*;
+   ascent_par! {
+      pub struct Prog;
+      relation r0(i64, i64);
+      relation r1(i64);
+      relation r2(i64);
+      relation r3(i64);
+      lattice r4(i64, Option<i64>);
+      lattice r5(i64, i64, Dual<i64>);
+      r4(v0, None) <-- r0(v0, v1) if ((*v0) < 4);
+      r4(v0, v1) <-- r4(v0, v1), r2(v2) if ((*v2) < 6);
+      r5(v0, v0, Dual((*v0))) <-- r2(v0) if ((*v0) < 3);
+      r5(v0, v0, Dual((*v1))) <-- r5(v0, v1, v2), r2(v3) if ((*v0) < 6);
+      r5(3, v1, v0) <-- r5(2, 2, v0), r5(v1, v2, v3);
+      r1(v0) <-- r5(v0, v1, v2) if ((*v0) < 5), r2(v0) if ((*v0) < 2);
+      r2(v0) <-- r2(v0), r1(v0);
+   }
+   pub struct Inst { p: Prog, pool: Option<ascent::rayon::ThreadPool> }
+   pub fn make(pool: Option<usize>) -> Box<dyn Driver> {
+      let pool = pool.map(|n| ascent::rayon::ThreadPoolBuilder::new().num_threads(n).build().unwrap());
+      let p = match &pool { Some(pl) => pl.install(|| Default::default()), None => Default::default() };
+      Box::new(Inst { p, pool })
+   }
+   impl Driver for Inst {
+      fn load(&mut self, rel: usize, rows: &[Sexp], append: bool) -> Option<()> {
+         match rel {
+         0 => { let v: Vec<(i64,i64,)> = parse_rows(rows)?; if !append { self.p.r0 = Default::default(); } for x in v { self.p.r0.push(x); } },
+         1 => { let v: Vec<(i64,)> = parse_rows(rows)?; if !append { self.p.r1 = Default::default(); } for x in v { self.p.r1.push(x); } },
+         2 => { let v: Vec<(i64,)> = parse_rows(rows)?; if !append { self.p.r2 = Default::default(); } for x in v { self.p.r2.push(x); } },
+         3 => { let v: Vec<(i64,)> = parse_rows(rows)?; if !append { self.p.r3 = Default::default(); } for x in v { self.p.r3.push(x); } },
+         4 => { let v: Vec<(i64,Option<i64>,)> = parse_rows(rows)?; if !append { self.p.r4 = Default::default(); } for x in v { self.p.r4.push(std::sync::RwLock::new(x)); } },
+         5 => { let v: Vec<(i64,i64,Dual<i64>,)> = parse_rows(rows)?; if !append { self.p.r5 = Default::default(); } for x in v { self.p.r5.push(std::sync::RwLock::new(x)); } },
+            _ => return None,
+         }
+         Some(())
+      }
+      fn run(&mut self) { match &self.pool { Some(pl) => { let p = &mut self.p; pl.install(|| p.run()) }, None => self.p.run() } }
+      fn run_here(&mut self) { self.p.run() }
+      fn run_timeout(&mut self, k: usize) -> Option<bool> { let _ = k; None }
+      fn dump(&self) -> String { vec![dump_rel(0, self.p.r0.iter().map(|x| x.render()).collect()), dump_rel(1, self.p.r1.iter().map(|x| x.render()).collect()), dump_rel(2, self.p.r2.iter().map(|x| x.render()).collect()), dump_rel(3, self.p.r3.iter().map(|x| x.render()).collect()), dump_rel(4, self.p.r4.iter().map(|x| x.read().unwrap().render()).collect()), dump_rel(5, self.p.r5.iter().map(|x| x.read().unwrap().render()).collect())].join(" | ") }
+      fn iters(&self) -> String { format!("iters {}", self.p.scc_iters.iter().map(|x| x.to_string()).collect::<Vec<_>>().join(" ")) }
+   }
+}
+
+#[allow(unused, non_snake_case, clippy::all)]
+pub mod w66 {
+   use ascent::*;
+   use ascent::aggregators::*;
+   use ascent::lattice::{Dual, set::Set};
+   use crate::common::*;
+   ascent_par! {
+      pub struct Prog;
+      relation r0(i64);
+      relation r1(i64, i64);
+      lattice r2(i64, Set<i64>);
+      lattice r3(i64, i64);
+      r2(v0, Set::singleton((*v1))) <-- r1(v0, v1);
+      r2(v1, v2) <-- r2(v0, v2), r1(v0, v1);
+      r2(v0, Set::singleton((*v0))) <-- r1(1, v0) if ((*v0) < 2);
+      r3(v1, 0) <-- r1(v0, v1);
+      r3(v0, std::cmp::min(((*v1) + 2), 6)) <-- r3(v0, v1) if ((*v0) < 4), r0(v0);
+      r3(v0, std::cmp::min(((*v3) + 2), 6)) <-- r3(v0, v1), r3(v2, v3);
+      r2(v0, Set::singleton(3)) <-- r1(v0, v0);
+      r2(v0, v1) <-- r2(v0, v1);
+   }
+   pub struct Inst { p: Prog, pool: Option<ascent::rayon::ThreadPool> }
+   pub fn make(pool: Option<usize>) -> Box<dyn Driver> {
+      let pool = pool.map(|n| ascent::rayon::ThreadPoolBuilder::new().num_threads(n).build().unwrap());
+      let p = match &pool { Some(pl) => pl.install(|| Default::default()), None => Default::default() };
+      Box::new(Inst { p, pool })
+   }
+   impl Driver for Inst {
+      fn load(&mut self, rel: usize, rows: &[Sexp], append: bool) -> Option<()> {
+         match rel {
+         0 => { let v: Vec<(i64,)> = parse_rows(rows)?; if !append { self.p.r0 = Default::default(); } for x in v { self.p.r0.push(x); } },
+         1 => { let v: Vec<(i64,i64,)> = parse_rows(rows)?; if !append { self.p.r1 = Default::default(); } for x in v { self.p.r1.push(x); } },
+         2 => { let v: Vec<(i64,Set<i64>,)> = parse_rows(rows)?; if !append { self.p.r2 = Default::default(); } for x in v { self.p.r2.push(std::sync::RwLock::new(x)); } },
+         3 => { let v: Vec<(i64,i64,)> = parse_rows(rows)?; if !append { self.p.r3 = Default::default(); } for x in v { self.p.r3.push(std::sync::RwLock::new(x)); } },
             _ => return None,
          }
          Some(())
@@ -144,6 +415,230 @@ pub mod w18 {
    }
 }
 
+#[allow(unused, non_snake_case, clippy::all)]
+pub mod w74 {
+   use ascent::*;
+   use ascent::aggregators::*;
+   use ascent::lattice::{Dual, set::Set};
+   use crate::common::*;
+   ascent_par! {
+      pub struct Prog;
+      relation r0(i64, i64);
+      relation r1(i64, i64);
+      relation r2(i64, i64);
+      lattice r3(i64, i64, i64);
+      lattice r4(Option<i64>);
+      r3(3, 3, (*v0)) <-- r1(v0, v0);
+      r3(v2, ((*v0) + 1), v1) <-- r3(1, v0, v1) if ((*v0) < 5), r0(v2, v0), if ((*v0) < 6);
+      r3(v0, v2, std::cmp::min(((*v1) + 2), 6)) <-- r3(v0, v0, v1), r3(0, v2, v3);
+      r4(Some((*v0))) <-- r1(0, v0);
+      r1(((*v0) + 1), v0) <-- r0(v0, v0), if ((*v0) < 6);
+      r3(v0, ((*v0) + 1), std::cmp::min(((*v1) + 0), 6)) <-- r3(v0, v0, v1), if ((*v0) < 6);
+      r4(Some((*v1))) <-- r3(v0, v1, v2);
+   }
+   pub struct Inst { p: Prog, pool: Option<ascent::rayon::ThreadPool> }
+   pub fn make(pool: Option<usize>) -> Box<dyn Driver> {
+      let pool = pool.map(|n| ascent::rayon::ThreadPoolBuilder::new().num_threads(n).build().unwrap());
+      let p = match &pool { Some(pl) => pl.install(|| Default::default()), None => Default::default() };
+      Box::new(Inst { p, pool })
+   }
+   impl Driver for Inst {
+      fn load(&mut self, rel: usize, rows: &[Sexp], append: bool) -> Option<()> {
+         match rel {
+         0 => { let v: Vec<(i64,i64,)> = parse_rows(rows)?; if !append { self.p.r0 = Default::default(); } for x in v { self.p.r0.push(x); } },
+         1 => { let v: Vec<(i64,i64,)> = parse_rows(rows)?; if !append { self.p.r1 = Default::default(); } for x in v { self.p.r1.push(x); } },
+         2 => { let v: Vec<(i64,i64,)> = parse_rows(rows)?; if !append { self.p.r2 = Default::default(); } for x in v { self.p.r2.push(x); } },
+         3 => { let v: Vec<(i64,i64,i64,)> = parse_rows(rows)?; if !append { self.p.r3 = Default::default(); } for x in v { self.p.r3.push(std::sync::RwLock::new(x)); } },
+         4 => { let v: Vec<(Option<i64>,)> = parse_rows(rows)?; if !append { self.p.r4 = Default::default(); } for x in v { self.p.r4.push(std::sync::RwLock::new(x)); } },
+            _ => return None,
+         }
+         Some(())
+      }
+      fn run(&mut self) { match &self.pool { Some(pl) => { let p = &mut self.p; pl.install(|| p.run()) }, None => self.p.run() } }
+      fn run_here(&mut self) { self.p.run() }
+      fn run_timeout(&mut self, k: usize) -> Option<bool> { let _ = k; None }
+      fn dump(&self) -> String { vec![dump_rel(0, self.p.r0.iter().map(|x| x.render()).collect()), dump_rel(1, self.p.r1.iter().map(|x| x.render()).collect()), dump_rel(2, self.p.r2.iter().map(|x| x.render()).collect()), dump_rel(3, self.p.r3.iter().map(|x| x.read().unwrap().render()).collect()), dump_rel(4, self.p.r4.iter().map(|x| x.read().unwrap().render()).collect())].join(" | ") }
+      fn iters(&self) -> String { format!("iters {}", self.p.scc_iters.iter().map(|x| x.to_string()).collect::<Vec<_>>().join(" ")) }
+   }
+}
+
+#[allow(unused, non_snake_case, clippy::all)]
+pub mod w82 {
+   use ascent::*;
+   use ascent::aggregators::*;
+   use ascent::lattice::{Dual, set::Set};
+   use crate::common::*;
+   ascent_par! {
+      pub struct Prog;
+      relation r0(i64);
+      relation r1(i64, i64);
+      relation r2(i64, i64);
+      relation r3(i64);
+      relation r4(i64, i64);
+      relation r5(i64, i64);
+      relation r6(i64);
+      relation r7(i64);
+      relation r8(i64);
+      relation r9(i64, i64);
+      relation r10(i64, i64);
+      r2(v0, v2) <-- r1(v0, v1), r1(v1, v2), r4(v2, v3);
+      r2(v0, v2) <-- r2(v0, v1), r1(v1, v2), r2(v2, v3);
+      r2(2, v0) <-- r2(v0, v1) if ((*v0) != 5) let v2 = ((*v1) + 1);
+      r4(((*v0) + 1), v0) <-- r0(v0) if ((*v0) != 2), if ((*v0) < 6);
+      r5(v1, v21) <-- r4(v0, v1), agg v21 = min(v20) in r3(v20);
+      r6(v0) <-- r3(v0), agg v21 = count() in r3((*v0));
+      r7(v0) <-- r0(v0), agg v21 = min(v20) in r4(v20, _);
+      r8(v1) <-- r1(v0, v1), r4(v32, v33), r3(v0), agg v21 = sum(v20) in r4(v20, (*v32));
+      r9(v1, (v21 as i64)) <-- r2(v0, v1), r4(v1, v1), r2(v1, v1), agg v21 = count() in r0(_);
+      r10(v0, 2) <-- r1(v0, v1), r1(v1, v1), agg () = not() in r4(_, _);
+   }
+   pub struct Inst { p: Prog, pool: Option<ascent::rayon::ThreadPool> }
+   pub fn make(pool: Option<usize>) -> Box<dyn Driver> {
+      let pool = pool.map(|n| ascent::rayon::ThreadPoolBuilder::new().num_threads(n).build().unwrap());
+      let p = match &pool { Some(pl) => pl.install(|| Default::default()), None => Default::default() };
+      Box::new(Inst { p, pool })
+   }
+   impl Driver for Inst {
+      fn load(&mut self, rel: usize, rows: &[Sexp], append: bool) -> Option<()> {
+         match rel {
+         0 => { let v: Vec<(i64,)> = parse_rows(rows)?; if !append { self.p.r0 = Default::default(); } for x in v { self.p.r0.push(x); } },
+         1 => { let v: Vec<(i64,i64,)> = parse_rows(rows)?; if !append { self.p.r1 = Default::default(); } for x in v { self.p.r1.push(x); } },
+         2 => { let v: Vec<(i64,i64,)> = parse_rows(rows)?; if !append { self.p.r2 = Default::default(); } for x in v { self.p.r2.push(x); } },
+         3 => { let v: Vec<(i64,)> = parse_rows(rows)?; if !append { self.p.r3 = Default::default(); } for x in v { self.p.r3.push(x); } },
+         4 => { let v: Vec<(i64,i64,)> = parse_rows(rows)?; if !append { self.p.r4 = Default::default(); } for x in v { self.p.r4.push(x); } },
+         5 => { let v: Vec<(i64,i64,)> = parse_rows(rows)?; if !append { self.p.r5 = Default::default(); } for x in v { self.p.r5.push(x); } },
+         6 => { let v: Vec<(i64,)> = parse_rows(rows)?; if !append { self.p.r6 = Default::default(); } for x in v { self.p.r6.push(x); } },
+         7 => { let v: Vec<(i64,)> = parse_rows(rows)?; if !append { self.p.r7 = Default::default(); } for x in v { self.p.r7.push(x); } },
+         8 => { let v: Vec<(i64,)> = parse_rows(rows)?; if !append { self.p.r8 = Default::default(); } for x in v { self.p.r8.push(x); } },
+         9 => { let v: Vec<(i64,i64,)> = parse_rows(rows)?; if !append { self.p.r9 = Default::default(); } for x in v { self.p.r9.push(x); } },
+         10 => { let v: Vec<(i64,i64,)> = parse_rows(rows)?; if !append { self.p.r10 = Default::default(); } for x in v { self.p.r10.push(x); } },
+            _ => return None,
+         }
+         Some(())
+      }
+      fn run(&mut self) { match &self.pool { Some(pl) => { let p = &mut self.p; pl.install(|| p.run()) }, None => self.p.run() } }
+      fn run_here(&mut self) { self.p.run() }
+      fn run_timeout(&mut self, k: usize) -> Option<bool> { let _ = k; None }
+      fn dump(&self) -> String { vec![dump_rel(0, self.p.r0.iter().map(|x| x.render()).collect()), dump_rel(1, self.p.r1.iter().map(|x| x.render()).collect()), dump_rel(2, self.p.r2.iter().map(|x| x.render()).collect()), dump_rel(3, self.p.r3.iter().map(|x| x.render()).collect()), dump_rel(4, self.p.r4.iter().map(|x| x.render()).collect()), dump_rel(5, self.p.r5.iter().map(|x| x.render()).collect()), dump_rel(6, self.p.r6.iter().map(|x| x.render()).collect()), dump_rel(7, self.p.r7.iter().map(|x| x.render()).collect()), dump_rel(8, self.p.r8.iter().map(|x| x.render()).collect()), dump_rel(9, self.p.r9.iter().map(|x| x.render()).collect()), dump_rel(10, self.p.r10.iter().map(|x| x.render()).collect())].join(" | ") }
+      fn iters(&self) -> String { format!("iters {}", self.p.scc_iters.iter().map(|x| x.to_string()).collect::<Vec<_>>().join(" ")) }
+   }
+}
+
+#[allow(unused, non_snake_case, clippy::all)]
+pub mod w90 {
+   use ascent::*;
+   use ascent::aggregators::*;
+   use ascent::lattice::{Dual, set::Set};
+   use crate::common::*;
+   ascent_par! {
+      pub struct Prog;
+      relation r0(i64, i64);
+      relation r1(i64, i64);
+      relation r2(i64, i64);
+      relation r3(i64, i64, i64);
+      relation r4(i64);
+      relation r5(i64, i64);
+      relation r6(i64, i64);
+      relation r7(i64);
+      relation r8(i64);
+      r2(v0, v1) <-- for v0 in 1..1, r1((v0 + 0), v1);
+      r2(2, v0) <-- r2(2, 2), r2(v0, v1) if ((*v1) < 4), let v2 = (*v0);
+      r2(v0, v1) <-- r0(v0, v1), r2(((*v0) + 1), v2);
+      r3(((*v0) + 1), v1, v1) <-- r2(v0, 1), for v1 in 2..3, if ((*v0) < 6);
+      r4(v3) <-- if let Some(v0) = Some(1), r1(v1, v2) if ((*v2) < 6) let v3 = (v0 + 0), r0(v4, v2), if (v3 <= 6);
+      r4(3);
+      r5(v1, v21) <-- r3(v0, v1, v2), agg v21 = min(v20) in r2(_, v20);
+      r6(v0, (v21 as i64)) <-- r0(v0, v1), agg v21 = count() in r0(0, (*v1));
+      r7(v1) <-- r2(v0, v1), agg () = not() in r4(_);
+      r8(v0) <-- r0(v0, v1), agg v21 = max(v20) in r7(v20);
+   }
+   pub struct Inst { p: Prog, pool: Option<ascent::rayon::ThreadPool> }
+   pub fn make(pool: Option<usize>) -> Box<dyn Driver> {
+      let pool = pool.map(|n| ascent::rayon::ThreadPoolBuilder::new().num_threads(n).build().unwrap());
+      let p = match &pool { Some(pl) => pl.install(|| Default::default()), None => Default::default() };
+      Box::new(Inst { p, pool })
+   }
+   impl Driver for Inst {
+      fn load(&mut self, rel: usize, rows: &[Sexp], append: bool) -> Option<()> {
+         match rel {
+         0 => { let v: Vec<(i64,i64,)> = parse_rows(rows)?; if !append { self.p.r0 = Default::default(); } for x in v { self.p.r0.push(x); } },
+         1 => { let v: Vec<(i64,i64,)> = parse_rows(rows)?; if !append { self.p.r1 = Default::default(); } for x in v { self.p.r1.push(x); } },
+         2 => { let v: Vec<(i64,i64,)> = parse_rows(rows)?; if !append { self.p.r2 = Default::default(); } for x in v { self.p.r2.push(x); } },
+         3 => { let v: Vec<(i64,i64,i64,)> = parse_rows(rows)?; if !append { self.p.r3 = Default::default(); } for x in v { self.p.r3.push(x); } },
+         4 => { let v: Vec<(i64,)> = parse_rows(rows)?; if !append { self.p.r4 = Default::default(); } for x in v { self.p.r4.push(x); } },
+         5 => { let v: Vec<(i64,i64,)> = parse_rows(rows)?; if !append { self.p.r5 = Default::default(); } for x in v { self.p.r5.push(x); } },
+         6 => { let v: Vec<(i64,i64,)> = parse_rows(rows)?; if !append { self.p.r6 = Default::default(); } for x in v { self.p.r6.push(x); } },
+         7 => { let v: Vec<(i64,)> = parse_rows(rows)?; if !append { self.p.r7 = Default::default(); } for x in v { self.p.r7.push(x); } },
+         8 => { let v: Vec<(i64,)> = parse_rows(rows)?; if !append { self.p.r8 = Default::default(); } for x in v { self.p.r8.push(x); } },
+            _ => return None,
+         }
+         Some(())
+      }
+      fn run(&mut self) { match &self.pool { Some(pl) => { let p = &mut self.p; pl.install(|| p.run()) }, None => self.p.run() } }
+      fn run_here(&mut self) { self.p.run() }
+      fn run_timeout(&mut self, k: usize) -> Option<bool> { let _ = k; None }
+      fn dump(&self) -> String { vec![dump_rel(0, self.p.r0.iter().map(|x| x.render()).collect()), dump_rel(1, self.p.r1.iter().map(|x| x.render()).collect()), dump_rel(2, self.p.r2.iter().map(|x| x.render()).collect()), dump_rel(3, self.p.r3.iter().map(|x| x.render()).collect()), dump_rel(4, self.p.r4.iter().map(|x| x.render()).collect()), dump_rel(5, self.p.r5.iter().map(|x| x.render()).collect()), dump_rel(6, self.p.r6.iter().map(|x| x.render()).collect()), dump_rel(7, self.p.r7.iter().map(|x| x.render()).collect()), dump_rel(8, self.p.r8.iter().map(|x| x.render()).collect())].join(" | ") }
+      fn iters(&self) -> String { format!("iters {}", self.p.scc_iters.iter().map(|x| x.to_string()).collect::<Vec<_>>().join(" ")) }
+   }
+}
+
+#[allow(unused, non_snake_case, clippy::all)]
+pub mod w98 {
+   use ascent::*;
+   use ascent::aggregators::*;
+   use ascent::lattice::{Dual, set::Set};
+   use crate::common::*;
+   ascent_par! {
+      pub struct Prog;
+      relation r0(i64, i64, i64);
+      relation r1(i64, i64);
+      relation r2(i64, i64);
+      relation r3(i64);
+      relation r4(i64, i64);
+      relation r5(i64);
+      relation r6(i64);
+      relation r7(i64);
+      r2(2, 0) <-- r0(v0, v1, v2), let v3 = (*v1);
+      r3(v0) <-- if let Some(v0) = Some(2), r2(v1, v2), if let Some(v3) = None::<i64>, r3(v4), if (v0 <= 6);
+      r2(v0, v8) <-- if let Some(v9) = Some(1), r1(v0, v1), r1(v1, v9) let v8 = ((*v0) + 1);
+      r2(0, 2);
+      r2(v0, v1) <-- if let Some(v0) = None::<i64>, r2(v1, v2), if (v0 <= 6);
+      r2(((*v2) + 1), v2) <-- if let Some(v0) = Some(0), r2(1, v1), r3(((*v1) + 0)), r3(v2) if ((*v1) <= 1), if ((*v2) < 6);
+      r2(1, 2);
+      r4(v1, (v21 as i64)) <-- r2(v0, v1), agg v21 = count() in r3(0);
+      r5(v1) <-- r2(v0, v1), agg v21 = min(v20) in r4(v20, (*v0));
+      r6(v0) <-- r1(v0, v1), r3(v0), r0(v0, v32, v1), agg v21 = sum(v20) in r0((*v0), v20, 1);
+      r7(v0) <-- r0(v0, v1, v2), agg () = not() in r0(_, (*v1), _);
+   }
+   pub struct Inst { p: Prog, pool: Option<ascent::rayon::ThreadPool> }
+   pub fn make(pool: Option<usize>) -> Box<dyn Driver> {
+      let pool = pool.map(|n| ascent::rayon::ThreadPoolBuilder::new().num_threads(n).build().unwrap());
+      let p = match &pool { Some(pl) => pl.install(|| Default::default()), None => Default::default() };
+      Box::new(Inst { p, pool })
+   }
+   impl Driver for Inst {
+      fn load(&mut self, rel: usize, rows: &[Sexp], append: bool) -> Option<()> {
+         match rel {
+         0 => { let v: Vec<(i64,i64,i64,)> = parse_rows(rows)?; if !append { self.p.r0 = Default::default(); } for x in v { self.p.r0.push(x); } },
+         1 => { let v: Vec<(i64,i64,)> = parse_rows(rows)?; if !append { self.p.r1 = Default::default(); } for x in v { self.p.r1.push(x); } },
+         2 => { let v: Vec<(i64,i64,)> = parse_rows(rows)?; if !append { self.p.r2 = Default::default(); } for x in v { self.p.r2.push(x); } },
+         3 => { let v: Vec<(i64,)> = parse_rows(rows)?; if !append { self.p.r3 = Default::default(); } for x in v { self.p.r3.push(x); } },
+         4 => { let v: Vec<(i64,i64,)> = parse_rows(rows)?; if !append { self.p.r4 = Default::default(); } for x in v { self.p.r4.push(x); } },
+         5 => { let v: Vec<(i64,)> = parse_rows(rows)?; if !append { self.p.r5 = Default::default(); } for x in v { self.p.r5.push(x); } },
+         6 => { let v: Vec<(i64,)> = parse_rows(rows)?; if !append { self.p.r6 = Default::default(); } for x in v { self.p.r6.push(x); } },
+         7 => { let v: Vec<(i64,)> = parse_rows(rows)?; if !append { self.p.r7 = Default::default(); } for x in v { self.p.r7.push(x); } },
+            _ => return None,
+         }
+         Some(())
+      }
+      fn run(&mut self) { match &self.pool { Some(pl) => { let p = &mut self.p; pl.install(|| p.run()) }, None => self.p.run() } }
+      fn run_here(&mut self) { self.p.run() }
+      fn run_timeout(&mut self, k: usize) -> Option<bool> { let _ = k; None }
+      fn dump(&self) -> String { vec![dump_rel(0, self.p.r0.iter().map(|x| x.render()).collect()), dump_rel(1, self.p.r1.iter().map(|x| x.render()).collect()), dump_rel(2, self.p.r2.iter().map(|x| x.render()).collect()), dump_rel(3, self.p.r3.iter().map(|x| x.render()).collect()), dump_rel(4, self.p.r4.iter().map(|x| x.render()).collect()), dump_rel(5, self.p.r5.iter().map(|x| x.render()).collect()), dump_rel(6, self.p.r6.iter().map(|x| x.render()).collect()), dump_rel(7, self.p.r7.iter().map(|x| x.render()).collect())].join(" | ") }
+      fn iters(&self) -> String { format!("iters {}", self.p.scc_iters.iter().map(|x| x.to_string()).collect::<Vec<_>>().join(" ")) }
+   }
+}
+
 fn main() {
-   common::main_loop(&[("w2", w2::make as common::Factory), ("w10", w10::make as common::Factory), ("w18", w18::make as common::Factory)]);
+   common::main_loop(&[("w2", w2::make as common::Factory), ("w10", w10::make as common::Factory), ("w18", w18::make as common::Factory), ("w26", w26::make as common::Factory), ("w34", w34::make as common::Factory), ("w42", w42::make as common::Factory), ("w50", w50::make as common::Factory), ("w58", w58::make as common::Factory), ("w66", w66::make as common::Factory), ("w74", w74::make as common::Factory), ("w82", w82::make as common::Factory), ("w90", w90::make as common::Factory), ("w98", w98::make as common::Factory)]);
 }
